@@ -47,6 +47,20 @@ def terminates(body) -> bool:
     return False
 
 
+def _fallthrough(stmt):
+    """conditions that hold when control falls out of an if / elif chain"""
+    bt = terminates(stmt.body)
+    et = terminates(stmt.orelse) if stmt.orelse else False
+    if bt and not et:
+        out = [(stmt.test, False)]
+        if len(stmt.orelse) == 1 and isinstance(stmt.orelse[0], ast.If):
+            out += _fallthrough(stmt.orelse[0])
+        return out
+    if et and not bt:
+        return [(stmt.test, True)]
+    return []
+
+
 def walk(func):
     """Yield a Point for every statement in func (not descending into nested defs/classes)."""
     yield from _block(func.body, (), (), (), (), ())
@@ -60,11 +74,7 @@ def _block(body, guards, preceding, loops, handlers, in_try):
         if isinstance(stmt, ast.If):
             yield from _block(stmt.body, guards + ((stmt.test, True),), preceding, loops, handlers, in_try)
             yield from _block(stmt.orelse, guards + ((stmt.test, False),), preceding, loops, handlers, in_try)
-            bt, et = terminates(stmt.body), terminates(stmt.orelse) if stmt.orelse else False
-            if bt and not et:
-                guards = guards + ((stmt.test, False),)
-            elif et and not bt:
-                guards = guards + ((stmt.test, True),)
+            guards = guards + tuple(_fallthrough(stmt))
         elif isinstance(stmt, (ast.For, ast.AsyncFor, ast.While)):
             g = guards + (((stmt.test, True),) if isinstance(stmt, ast.While) else ())
             yield from _block(stmt.body, g, preceding, loops + (stmt,), handlers, in_try)
